@@ -66,12 +66,43 @@ func cloneTok(t tokens.Token) tokens.Token {
 	return tokens.Token{TokenType: t.TokenType, Nonce: append([]byte{}, t.Nonce...), Context: append([]byte{}, t.Context...), KeyID: append([]byte{}, t.KeyID...), Authenticator: append([]byte{}, t.Authenticator...)}
 }
 
+// c10IssuersReusedKeyObject loads n issuers of each type through ONE key object per type that is overwritten in place
+// for each next issuer (key rotation by `*key = *next`); the oracle keys are independent copies. "Under that issuer's
+// key" means the key the issuer was constructed with (whose id and public key it still advertises), whatever the
+// caller's object holds later.
+func c10IssuersReusedKeyObject(c *h.Ctx, n int) (out []*c10Issuer, i1 []*type1.BasicPrivateIssuer, i5 []*type5.BatchedPrivateIssuer) {
+	scratch1, scratch5 := new(oprf.PrivateKey), new(oprf.PrivateKey)
+	for i := 0; i < n; i++ {
+		sk1, _ := oprf.DeriveKey(oprf.SuiteP384, oprf.VerifiableMode, rnd(c, 32), nil)
+		enc1, _ := sk1.MarshalBinary()
+		*scratch1 = oprf.PrivateKey{}
+		scratch1.UnmarshalBinary(oprf.SuiteP384, enc1)
+		a := type1.NewBasicPrivateIssuer(scratch1)
+		out = append(out, &c10Issuer{"type1", oprf.SuiteP384, sk1, a.Verify, 48})
+		i1 = append(i1, a)
+		sk5, _ := oprf.DeriveKey(oprf.SuiteRistretto255, oprf.VerifiableMode, rnd(c, 32), nil)
+		enc5, _ := sk5.MarshalBinary()
+		*scratch5 = oprf.PrivateKey{}
+		scratch5.UnmarshalBinary(oprf.SuiteRistretto255, enc5)
+		b := type5.NewBatchedPrivateIssuer(scratch5)
+		out = append(out, &c10Issuer{"type5", oprf.SuiteRistretto255, sk5, b.Verify, 64})
+		i5 = append(i5, b)
+	}
+	return
+}
+
 func runC10(c *h.Ctx) {
 	nKeys := 2
 	if c.Thorough() {
 		nKeys = 4
 	}
 	issuers, i1, i5 := c10Issuers(c, nKeys)
+	runC10With(c, "", nKeys, issuers, i1, i5, true)
+	issuers, i1, i5 = c10IssuersReusedKeyObject(c, 2)
+	runC10With(c, "key-object-reused:", 2, issuers, i1, i5, false)
+}
+
+func runC10With(c *h.Ctx, pfx string, nKeys int, issuers []*c10Issuer, i1 []*type1.BasicPrivateIssuer, i5 []*type5.BatchedPrivateIssuer, full bool) {
 	var honest []tokens.Token
 	var owner []int
 	for k := 0; k < nKeys; k++ {
@@ -105,11 +136,11 @@ func runC10(c *h.Ctx) {
 	}
 	for ti, tok := range honest {
 		is := issuers[owner[ti]]
-		if !c10Check(c, "honest", is, tok) {
+		if !c10Check(c, pfx+"honest", is, tok) {
 			c.Violation("an honestly issued token is rejected by its issuer", map[string]any{"issuer": is.name})
 		}
 		// every single-bit variant of every field (the honest token was verified first: a verdict cache would show here)
-		if ti < 4 || c.Thorough() {
+		if full && (ti < 4 || c.Thorough()) {
 			fields := []func(*tokens.Token) *[]byte{
 				func(t *tokens.Token) *[]byte { return &t.Nonce }, func(t *tokens.Token) *[]byte { return &t.Context },
 				func(t *tokens.Token) *[]byte { return &t.KeyID }, func(t *tokens.Token) *[]byte { return &t.Authenticator }}
@@ -118,7 +149,7 @@ func runC10(c *h.Ctx) {
 				for bit := 0; bit < 8*n; bit++ {
 					v := cloneTok(tok)
 					(*f(&v))[bit/8] ^= 1 << uint(bit%8)
-					if c10Check(c, "bitflip:every-position", is, v) {
+					if c10Check(c, pfx+"bitflip:every-position", is, v) {
 						c.Violation("a single-bit change to a token is accepted", map[string]any{"field": fi, "bit": bit})
 					}
 				}
@@ -126,7 +157,7 @@ func runC10(c *h.Ctx) {
 			for bit := 0; bit < 16; bit++ {
 				v := cloneTok(tok)
 				v.TokenType ^= 1 << uint(bit)
-				if c10Check(c, "bitflip:type", is, v) {
+				if c10Check(c, pfx+"bitflip:type", is, v) {
 					c.Violation("a single-bit change to the token type is accepted", map[string]any{"bit": bit})
 				}
 			}
@@ -135,42 +166,42 @@ func runC10(c *h.Ctx) {
 		for _, a := range [][]byte{nil, {}, tok.Authenticator[:1], tok.Authenticator[:len(tok.Authenticator)-1], cat(tok.Authenticator, []byte{0}), cat(tok.Authenticator, rnd(c, 16)), cat(tok.Authenticator, tok.Authenticator), cat([]byte{0}, tok.Authenticator)} {
 			v := cloneTok(tok)
 			v.Authenticator = a
-			if c10Check(c, "authenticator:length-variants", is, v) {
+			if c10Check(c, pfx+"authenticator:length-variants", is, v) {
 				c.Violation("a token whose authenticator is not exactly the VOPRF output is accepted", map[string]any{"len": len(a)})
 			}
 		}
 		// arbitrary field lengths / shifted field boundaries (same concatenated input: same verdict as the honest token)
 		v := cloneTok(tok)
 		v.Nonce, v.Context = tok.Nonce[:20], cat(tok.Nonce[20:], tok.Context)
-		c10Check(c, "fields:shifted-boundaries", is, v)
+		c10Check(c, pfx+"fields:shifted-boundaries", is, v)
 		v = cloneTok(tok)
 		v.Nonce, v.Context, v.KeyID = nil, nil, cat(tok.Nonce, tok.Context, tok.KeyID)
-		c10Check(c, "fields:shifted-boundaries", is, v)
+		c10Check(c, pfx+"fields:shifted-boundaries", is, v)
 		for _, l := range []int{0, 1, 31, 33, 64} {
 			v = cloneTok(tok)
 			v.Nonce = rnd(c, l)
-			c10Check(c, "fields:arbitrary-lengths", is, v)
+			c10Check(c, pfx+"fields:arbitrary-lengths", is, v)
 			v = cloneTok(tok)
 			v.KeyID = rnd(c, l)
-			c10Check(c, "fields:arbitrary-lengths", is, v)
+			c10Check(c, pfx+"fields:arbitrary-lengths", is, v)
 		}
 		// every (token, issuer key) pairing, incl. the issuer of the other type
 		for ii, other := range issuers {
 			if ii == owner[ti] {
 				continue
 			}
-			if c10Check(c, "pairing:token-x-issuer", other, tok) {
+			if c10Check(c, pfx+"pairing:token-x-issuer", other, tok) {
 				c.Violation("a token issued under another key / of the other type is accepted", map[string]any{"token_owner": owner[ti], "issuer": ii})
 			}
 			// a token of the other type re-labelled with this issuer's type
 			v := cloneTok(tok)
 			v.TokenType = map[string]uint16{"type1": 1, "type5": 5}[other.name]
-			if c10Check(c, "pairing:relabelled-type", other, v) {
+			if c10Check(c, pfx+"pairing:relabelled-type", other, v) {
 				c.Violation("a re-labelled token of another issuer is accepted", nil)
 			}
 		}
 		// the untouched token still verifies after all of the above
-		if !c10Check(c, "honest:again", is, tok) {
+		if !c10Check(c, pfx+"honest:again", is, tok) {
 			c.Violation("an honestly issued token is rejected after other tokens were presented", nil)
 		}
 	}
@@ -180,7 +211,7 @@ func runC10(c *h.Ctx) {
 			if a != b && owner[a] == owner[b] {
 				v := cloneTok(honest[a])
 				v.Authenticator = append([]byte{}, honest[b].Authenticator...)
-				if c10Check(c, "swap:authenticator-of-another-token", issuers[owner[a]], v) {
+				if c10Check(c, pfx+"swap:authenticator-of-another-token", issuers[owner[a]], v) {
 					c.Violation("a token carrying another token's authenticator is accepted", nil)
 				}
 			}
